@@ -72,7 +72,7 @@ func nextHeightGuard(gcbh *types.Func) eng.NamedGuard {
 
 func runC13(c *core.Ctx) {
 	checkHeightUnderLock(c)
-	gcbh :=eng.Obj(c, pkLedger, "LedgerStoreImp.GetCurrentBlockHeight")
+	gcbh := eng.Obj(c, pkLedger, "LedgerStoreImp.GetCurrentBlockHeight")
 	vh := eng.Obj(c, pkLedger, "LedgerStoreImp.verifyHeader")
 	if gcbh == nil || vh == nil {
 		return
@@ -296,6 +296,12 @@ func runC14(c *core.Ctx) {
 			if _, isPhi := b.Y.(*ssa.Phi); isPhi {
 				mVal, thrIf = b.Y, cd.If
 			}
+			// m computed by a same-package helper quorum(N, legacy)
+			if cl, isCall := b.Y.(*ssa.Call); isCall {
+				if h := cl.Common().StaticCallee(); h != nil && h.Pkg == fn.Pkg && len(h.Blocks) > 0 {
+					mVal, thrIf = b.Y, cd.If
+				}
+			}
 		}
 	}
 	if mVal == nil {
@@ -306,20 +312,49 @@ func runC14(c *core.Ctx) {
 	mn, _ := ir.ConstInt(ssa.NewConst(mainNet, types.Typ[types.Int]))
 	// needFix := NETWORK_ID_MAIN_NET != NetworkId || GetCurrentHeaderHeight() <= 20000000 ; if needFix { m = legacy }
 	gchh := eng.Obj(c, pkLedger, "LedgerStoreImp.GetCurrentHeaderHeight")
-	mPhi := mVal.(*ssa.Phi)
 	var selIf *ssa.If
-	for _, pb := range mPhi.Block().Preds {
-		for _, cand := range append([]*ssa.BasicBlock{pb}, pb.Preds...) {
-			if ifi, ok := cand.Instrs[len(cand.Instrs)-1].(*ssa.If); ok && selIf == nil {
-				selIf = ifi
+	var selCond ssa.Value
+	mFn := fn   // the function in which the alternatives of m are chosen
+	isNm := isN // recognises N inside mFn
+	if mPhi, isPhi := mVal.(*ssa.Phi); isPhi {
+		for _, pb := range mPhi.Block().Preds {
+			for _, cand := range append([]*ssa.BasicBlock{pb}, pb.Preds...) {
+				if ifi, ok := cand.Instrs[len(cand.Instrs)-1].(*ssa.If); ok && selIf == nil {
+					selIf = ifi
+				}
+			}
+		}
+		if selIf != nil {
+			selCond = selIf.Cond
+		}
+	} else if cl, isCall := mVal.(*ssa.Call); isCall {
+		h := cl.Common().StaticCallee()
+		mFn = h
+		var nParam *ssa.Parameter
+		for i, a := range cl.Common().Args {
+			if i >= len(h.Params) {
+				break
+			}
+			if isN(a) {
+				nParam = h.Params[i]
+			}
+		}
+		isNm = func(v ssa.Value) bool { return nParam != nil && v == ssa.Value(nParam) }
+		for _, cd := range ir.Conds(h) {
+			if p, isP := cd.V.(*ssa.Parameter); isP && selIf == nil && !cd.Neg {
+				for i, hp := range h.Params {
+					if hp == p && i < len(cl.Common().Args) {
+						selIf, selCond = cd.If, cl.Common().Args[i]
+					}
+				}
 			}
 		}
 	}
-	if selIf == nil {
+	if selIf == nil || selCond == nil {
 		c.Broken("C14.legacy-gate", fn, "if needFix", c.P.Rel(fn.Pos()), "selector of m not found")
 		return
 	}
-	tree := eng.BoolTree(selIf.Cond)
+	tree := eng.BoolTree(selCond)
 	classify := func(a ssa.Value) string {
 		b, ok := a.(*ssa.BinOp)
 		if !ok {
@@ -389,13 +424,26 @@ func runC14(c *core.Ctx) {
 		{"legacy rule on", []ir.Edge{{From: selIf.Block(), Idx: 1}}, eng.FormulaLegacy(), "N-⌊6N/7⌋"},
 	}
 	for _, cf := range cfgs {
-		r := ir.NewReach(fn).CutEdges(cf.cuts).Run(nil)
-		leaves := eng.PhiLeaves(r, mVal)
+		r := ir.NewReach(mFn).CutEdges(cf.cuts).Run(nil)
+		var leaves []ssa.Value
+		if mFn == fn {
+			leaves = eng.PhiLeaves(r, mVal)
+		} else {
+			// the helper's return values that are reachable under this configuration
+			for _, b := range mFn.Blocks {
+				if len(b.Instrs) == 0 {
+					continue
+				}
+				if ret, isRet := b.Instrs[len(b.Instrs)-1].(*ssa.Return); isRet && len(ret.Results) == 1 && r.Instr(ret) {
+					leaves = append(leaves, eng.PhiLeaves(r, ret.Results[0])...)
+				}
+			}
+		}
 		if len(leaves) != 1 {
 			c.Violate("C14.threshold", fn, "m under ["+cf.name+"] ≡ "+cf.wantNm, c.P.Rel(thrIf.Pos()), sprintf("%d candidate definitions of m reach the test under this configuration", len(leaves)))
 			continue
 		}
-		e, err := eng.ExtractExpr(leaves[0], isN)
+		e, err := eng.ExtractExpr(leaves[0], isNm)
 		if err != nil {
 			c.Broken("C14.threshold", fn, "m under ["+cf.name+"]", c.P.Rel(thrIf.Pos()), err.Error())
 			continue
@@ -468,9 +516,18 @@ func runC14(c *core.Ctx) {
 			return true, true
 		}}
 		isUsedMap := func(v ssa.Value) bool { _, ok := ir.Strip(v).(*ssa.MakeMap); return ok }
+		presence := false
 		unused := eng.NamedGuard{Name: "!usedPubKey[pubkey]", G: func(cd ir.Cond) (bool, bool) {
+			// presence form: _, seen := used[k]
+			if ex, isEx := cd.V.(*ssa.Extract); isEx && ex.Index == 1 {
+				if lk, isLk := ex.Tuple.(*ssa.Lookup); isLk && lk.CommaOk && isUsedMap(lk.X) && isCallTo(lk.Index, pid) {
+					presence = true
+					return true, false
+				}
+				return false, false
+			}
 			lk, ok := cd.V.(*ssa.Lookup)
-			if !ok || !isUsedMap(lk.X) || !isCallTo(lk.Index, pid) {
+			if !ok || lk.CommaOk || !isUsedMap(lk.X) || !isCallTo(lk.Index, pid) {
 				return false, false
 			}
 			return true, false
@@ -481,6 +538,9 @@ func runC14(c *core.Ctx) {
 			mu, ok := in.(*ssa.MapUpdate)
 			if !ok || !isUsedMap(mu.Map) || !isCallTo(mu.Key, pid) {
 				return false
+			}
+			if presence {
+				return true // the test is key presence: any stored value records the key
 			}
 			k, isk := ir.ConstBool(mu.Value)
 			return isk && k
